@@ -3,6 +3,7 @@ package checks
 import (
 	"encoding/hex"
 	"fmt"
+	cmtsecp "github.com/cometbft/cometbft/crypto/secp256k1"
 	"math/big"
 
 	"github.com/btcsuite/btcd/chaincfg"
@@ -197,3 +198,5 @@ type sdkMsg = sdk.Msg
 func bridgeReqs(ws []*goattypes.WithdrawalRequest) goattypes.BridgeRequests {
 	return goattypes.BridgeRequests{Withdraws: ws}
 }
+
+type cmtPub = cmtsecp.PubKey
